@@ -3,8 +3,9 @@
 M: spec/Shapes (Shapes_MC / Shapes_MCT) exhaustively with TLC: every shape x block size x merge
    limit x preconditioner type within the bound through the three pipelines (Distributed Shampoo
    Preconditioner, Tearfree Shampoo blockify, Tearfree reshaper), tensors being index maps, with the
-   26 invariants of the property (product, limit, split sizes, order/contiguity/bijectivity of blocks,
-   announced preconditioners aligned with the blocks, slot lists, round trips, pad rule, rejections).
+   28 invariants and one action property (product, limit, split sizes, order / contiguity / bijectivity
+   of blocks, announced preconditioners aligned with the blocks, slot lists, round trips, pad rule,
+   rejections, closed forms); deadlock checking shows that every accepted case runs to the end.
 R: Shapes_Gen exports every enumerated case with the spec's expected shapes / block lists / slot
    lists / verdicts / index maps; harness/workers/shapes_replay runs the REAL functions on
    index-valued tensors and compares elementwise and exactly.
@@ -23,11 +24,6 @@ import numpy as np
 from harness import core
 
 LEVEL = "model_checking"
-
-ACTIONS = ["DSMerge", "DSPlan", "DSAnnounce", "DSPartition", "DSPrecondition", "DSMergeBack",
-           "TFValidate", "TFMeta", "TFInit", "TFBlockify", "TFPrecondition", "TFDeblockify",
-           "RSValidate", "RSDerive", "RSMerge", "RSUnmerge"]
-
 
 def vkey(c, clause):
   if c["sys"] == "ds":
@@ -318,10 +314,15 @@ def trace_leg(ck, n):
     else:
       traces.append(r["trace"])
   ck.cov["trace_cases_skipped_too_many_blocks"] = skipped
-  if len(traces) < n // 2:
+  # (when the code under test crashes on whole families of cases these are violations, reported
+  # above; the vacuity guards below must then not turn the verdict into a machinery error)
+  failing = bool(ck.violations or ck.known_hits)
+  if len(traces) < n // 2 and not failing:
     raise core.MachineryError(f"only {len(traces)} of {n} random cases produced a trace")
   big = [t for t in traces if int(np.prod(t["cfg"]["shape"], dtype=np.int64)) > 2048 and len(t["events"]) > 3]
   if not big:
+    if failing:
+      return
     raise core.MachineryError("vacuous trace leg: no large accepted case")
   ck.sample({"recorded_trace": {"cfg": big[0]["cfg"],
                                 "events": [{k: (v if not isinstance(v, list) or len(json.dumps(v)) < 300 else "...")
@@ -329,36 +330,47 @@ def trace_leg(ck, n):
   validate_traces(ck, traces, "random shape run")
   # binding self-tests: one corrupted logged field per trace must be rejected
   def first(pred):
-    return copy.deepcopy(next(t for t in traces if pred(t)))
+    return copy.deepcopy(next((t for t in traces if pred(t)), None))
   ts = []
   t = first(lambda t: t["cfg"]["sys"] == "ds" and len(t["events"][3]["block_shapes"]) > 1)
-  t["events"][3]["probes"][-1][2] += 1
-  ts.append(("V: a wrong element read from a block is rejected", t))
+  if t is not None:
+    t["events"][3]["probes"][-1][2] += 1
+    ts.append(("V: a wrong element read from a block is rejected", t))
   t = first(lambda t: t["cfg"]["sys"] == "ds" and any(len(z) > 1 for z in t["events"][1]["split_sizes"]))
-  k = next(i for i, z in enumerate(t["events"][1]["split_sizes"]) if len(z) > 1)
-  t["events"][1]["split_sizes"][k][-1] += 1
-  ts.append(("V: a wrong logged split size is rejected", t))
+  if t is not None:
+    k = next(i for i, z in enumerate(t["events"][1]["split_sizes"]) if len(z) > 1)
+    t["events"][1]["split_sizes"][k][-1] += 1
+    ts.append(("V: a wrong logged split size is rejected", t))
   t = first(lambda t: t["cfg"]["sys"] == "ds" and t["cfg"]["ptype"] == "OUTPUT" and len(t["events"][2]["should"]) > 1)
-  t["events"][4]["slots"][0] = t["events"][4]["slots"][0][::-1]
-  ts.append(("V: an OUTPUT slot list padded at the wrong end is rejected", t))
+  if t is not None:
+    t["events"][4]["slots"][0] = t["events"][4]["slots"][0][::-1]
+    ts.append(("V: an OUTPUT slot list padded at the wrong end is rejected", t))
   t = first(lambda t: t["cfg"]["sys"] == "ds")
-  t["events"][5]["unchanged"] = False
-  ts.append(("V: a gradient changed by identity preconditioners is rejected", t))
+  if t is not None:
+    t["events"][5]["unchanged"] = False
+    ts.append(("V: a gradient changed by identity preconditioners is rejected", t))
   t = first(lambda t: t["cfg"]["sys"] == "tf" and len(t["events"]) > 3 and len(t["events"][1]["large_axes"]) == 2)
-  t["events"][3]["probes"][1][1] += 1
-  ts.append(("V: a wrong element read from the blockified tensor is rejected", t))
+  if t is not None:
+    t["events"][3]["probes"][1][1] += 1
+    ts.append(("V: a wrong element read from the blockified tensor is rejected", t))
   t = first(lambda t: t["cfg"]["sys"] == "tf" and len(t["events"]) == 2)
-  t["events"][0]["accepted"] = True
-  ts.append(("V: acceptance of a shape the specification rejects is rejected", t))
+  if t is not None:
+    t["events"][0]["accepted"] = True
+    ts.append(("V: acceptance of a shape the specification rejects is rejected", t))
   t = first(lambda t: t["cfg"]["sys"] == "rs" and len(t["events"]) > 3 and t["events"][1]["merged"] != t["events"][1]["padded"])
-  t["events"][1]["padded"][0] += t["cfg"]["bs"]
-  ts.append(("V: a wrong logged padded shape is rejected", t))
+  if t is not None:
+    t["events"][1]["padded"][0] += t["cfg"]["bs"]
+    ts.append(("V: a wrong logged padded shape is rejected", t))
   t = first(lambda t: t["cfg"]["sys"] == "rs" and len(t["events"]) > 3)
-  del t["events"][3]
-  ts.append(("V: a trace that skips the unmerge step is rejected", t))
-  vs = validate_traces(ck, [x[1] for x in ts], "selftest", report=False)
-  for (name, _), v in zip(ts, vs):
-    ck.selftest(name, not v["accepted"])
+  if t is not None:
+    del t["events"][3]
+    ts.append(("V: a trace that skips the unmerge step is rejected", t))
+  if len(ts) < 8 and not failing:
+    raise core.MachineryError(f"only {len(ts)} of 8 trace self-tests could be built")
+  if ts:
+    vs = validate_traces(ck, [x[1] for x in ts], "selftest", report=False)
+    for (name, _), v in zip(ts, vs):
+      ck.selftest(name, not v["accepted"])
 
 
 def run(ck):
